@@ -6,7 +6,7 @@ from vlib import Raw
 import fwdcommon as F
 
 PFX = ["C16."]
-MODES = ["refused", "close_before_head", "reset_before_head", "header_timeout", "client_cancel", "abort_body"]
+MODES = ["refused", "close_before_head", "reset_before_head", "header_timeout", "client_cancel", "abort_body", "precancel"]
 
 
 def scenarios(ctx):
